@@ -57,7 +57,7 @@ Proof. apply RV.Proofs.SitesFacts.literals_okb_sound. vm_compute. reflexivity. Q
 Print Assumptions C12_literals_reviewed.
 
 (* ---- the version scan AS TRANSLATED FROM THE SOURCE on this run (see C07.v) ---- *)
-Require Import RV.Model.GenSupport RV.Gen.Code RV.Proofs.CodeFacts.
+Require Import RV.Model.GenSupport RV.Gen.Code RV.Proofs.CodeRequest.
 
 Theorem C12_translated_version_scan_is_model :
   forall m, gen_get_supported_version m = Ok (get_supported_version m).
